@@ -121,6 +121,12 @@ def _extract_model(ctx, fq: str) -> T.Dict[str, T.Any]:
                 if merged_slice is not None and isinstance(val, ast.Call) and unparse(val.func) == "re.compile":
                     run([ast.copy_location(ast.Return(value=val), st)], env)          # `regexp = re.compile(...)` ends the merged pipeline
                     continue
+                if info["final"] not in (None, "<inline>") and any(isinstance(x, ast.Name) and x.id == info["final"] for x in ast.walk(val)):
+                    # the regex text is edited again after the parts were substituted (a rewrite of the *compiled* text, not of the pattern)
+                    info["wrapped"] = val
+                    if tgt.id != info["final"]:
+                        info["final_alias"] = tgt.id
+                    continue
                 try:
                     env[tgt.id] = fold(val, env)
                 except AnalysisError:
@@ -163,7 +169,7 @@ def _extract_model(ctx, fq: str) -> T.Dict[str, T.Any]:
                 arg = v.args[0]
                 if isinstance(arg, ast.Call) and unparse(arg.func) == "_replace_pattern_parts" and isinstance(arg.args[0], ast.Name) and arg.args[0].id in running:
                     info["final"] = "<inline>"
-                elif isinstance(arg, ast.Name) and arg.id == info["final"]:
+                elif isinstance(arg, ast.Name) and arg.id in (info["final"], info.get("final_alias")):
                     pass
                 elif any(isinstance(x, ast.Name) and x.id == info["final"] for x in ast.walk(arg)):
                     info["wrapped"] = arg          # the text is edited once more between escaping and compiling
